@@ -573,9 +573,12 @@ func scenarios(thorough bool) []Scenario {
 		playerListScenario(1),
 		playerListScenario(2),
 		chunkScenario(2),
-		marshalScenario(2, false),
-		marshalScenario(2, true),
 		nbtValueScenario(2),
+		connScenario(2, -1, true),
+		connScenario(2, 32, true),
+	}
+	for _, th := range marshalThresholds {
+		s = append(s, marshalScenario(2, th))
 	}
 	if thorough {
 		s = append(s,
@@ -584,6 +587,8 @@ func scenarios(thorough bool) []Scenario {
 			poolScenario(3, true),
 			nbtCacheScenario(3),
 			nbtValueScenario(3),
+			connScenario(2, 4096, false),
+			connScenario(3, 32, true),
 		)
 	}
 	return s
@@ -804,6 +809,7 @@ func main() {
 	rep.Extra("shards", nShards)
 	racePass()
 	rep.Extra("preemption_bound", bound)
+	reportMenus()
 	rep.Extra("scenarios", stats)
 	rep.AddTraces(rep.Evaluations)
 	rep.Assume("sequential consistency; scheduling points at sync/pool/map operations only (unsynchronised accesses are the business of the separate free-running -race pass); ChannelQueue methods are single channel operations, interleaved at method level; Signal wakes the longest waiter by default, any other waiter is a deviation")
